@@ -200,6 +200,27 @@ CHECKS["C10"] = dict(
     assumptions=[],
 )
 
+CHECKS["C18"] = dict(
+    stages=[stage("C18", quick=dict(cases=6000, size=100, shards=12), thorough=dict(cases=600000, size=100, shards=16), case_timeout=300)],
+    technique="exhaustive enumeration of the constraint x transform table against an independent 2x2-matrix reference model "
+              "(metamorphic relation), group-law table, and rapidcheck round-trip testing of the TGLF writer/reader",
+    level_text="Exhaustive over every direction(8) x relation(2) x gap type(2) x gap in {+0,-0,3,7.5,11} x three node-size sets, alone and "
+               "followed by a second constraint in the same SepPair: (i) the generated vpsc constraints mean what constraints.h "
+               "says, (ii) for each of the 7 transforms a placement satisfies the constraint iff its image (own integer matrix, "
+               "sizes swapped on quarter turns) satisfies the transformed constraint, over >= 64 lattice placements straddling the "
+               "boundary, (iii) the full 7x7 composition table and four quarter turns reproduce the SepPair state including the "
+               "sign of zero, (iv) addSep(a,b) and the negation under (b,a) generate identical constraints.  Random graphs "
+               "(2-15 nodes, routes with bends, 0-30 constraints) must survive writeTglf -> buildGraphFromTglf with identical node "
+               "geometry, edges, routes and generated constraints, and a second write must reproduce the text.",
+    level_note="Round-trip inputs use only numbers the writers can print exactly (6 significant digits for geometry, 3 decimals for gaps); "
+               "graphs whose constraints force two nodes to coincide are a documented writer error and counted as clean rejections.",
+    rule="exhaustive table rows (distinct by construction; non-trivial = both outcomes of 'holds' occur among the row's placements) "
+         "plus rapidcheck-generated graphs (non-trivial = a route with a bend and a zero-gap constraint; distinct by FNV-1a of the case text)",
+    exhaustive=True,
+    min_nontrivial=dict(quick=1000, thorough=20000),
+    assumptions=["y axis points down (FLIPMD exchanges x and y)"],
+)
+
 # every check treats a library assertion at a site that is not a listed C15 finding as a violation of its own property
 for _k in CHECKS:
     NOT_APPLICABLE.pop(_k, None)
